@@ -10,6 +10,7 @@ SOURCES = ['celt/mdct.c', 'celt/mdct.h', 'celt/kiss_fft.c', 'celt/kiss_fft.h', '
            'celt/modes.c', 'celt/static_modes_float.h', 'celt/quant_bands.c', 'celt/celt_decoder.c']
 REQUIRED_THEOREMS = [
     'OpusProps.C01CeltCallees2.fft_bitrev_permutation', 'OpusProps.C01CeltCallees2.fft_butterflies_in_bounds',
+    'OpusProps.C01CeltCallees2.fft_butterfly_strides_general',
     'OpusProps.C01CeltCallees2.mdct_backward_in_contract', 'OpusProps.C01CeltCallees2.denormalise_in_contract',
     'OpusProps.C01CeltCallees2.pitch_search_in_contract', 'OpusProps.C01CeltCallees2.contracts_at_decoder_args',
 ]
